@@ -1,5 +1,14 @@
+//! Intent replay-protection and validity-window checks over long epoch histories.
+mod c07;
+
 fn main() {
     let args = rv_common::parse_args();
-    eprintln!("no check named {}", args.prop);
-    std::process::exit(2);
+    let code = match args.prop.as_str() {
+        "C07" => c07::run(&args),
+        other => {
+            eprintln!("rv-intent: no check named {other}");
+            2
+        }
+    };
+    std::process::exit(code);
 }
